@@ -290,6 +290,14 @@ func (w *worker) expandNew(p *node, nEvents int) (out []child) {
 	return out
 }
 
+// newRes is what is kept of a "new block" transition: the resulting state and its rendering.
+type newRes struct {
+	keyR  string
+	lines []string
+}
+
+const chunkSize = 1024
+
 type search struct {
 	r        *ev.Run
 	fx       *reg.Fixture
@@ -351,7 +359,7 @@ func (s *search) run() (states, nodes, transitions, doneDepth int, complete bool
 	root := &node{blocks: blocks, mS: m, mR: m, sS: snap, sR: snap, keyS: key, keyR: key}
 	seen := map[string]bool{root.key(): true}
 	distinct := map[string]bool{key: true}
-	newFrom := map[string][]child{} // state after the open block -> results of every event as a new block
+	newFrom := map[string][]newRes{} // state after the open block -> result of every event as a new block
 	frontier := []*node{root}
 	var next []*node
 	handle := func(parentKeyR string, c child) {
@@ -379,60 +387,71 @@ func (s *search) run() (states, nodes, transitions, doneDepth int, complete bool
 	}
 	for d := 0; d < s.depth && len(frontier) > 0; d++ {
 		next = nil
-		// phase 1: every event appended to the open block of every frontier node
-		same := make([][]child, len(frontier))
-		ok := s.parallel(len(frontier), func(w *worker, i int) { same[i] = w.expandSame(frontier[i], nEvents) })
-		// phase 2: every event as a new block, once per distinct state after the open block
-		var reps []*node
-		repOf := map[string]bool{}
-		for _, p := range frontier {
-			if len(p.pending) > 0 && newFrom[p.keyR] == nil && !repOf[p.keyR] {
-				repOf[p.keyR] = true
-				reps = append(reps, p)
+		level := frontier
+		// the level is processed in chunks to bound the memory held by un-merged results
+		for start := 0; start < len(level); start += chunkSize {
+			end := start + chunkSize
+			if end > len(level) {
+				end = len(level)
 			}
-		}
-		fresh := make([][]child, len(reps))
-		if ok {
-			ok = s.parallel(len(reps), func(w *worker, i int) { fresh[i] = w.expandNew(reps[i], nEvents) })
-		}
-		if !ok {
-			for _, l := range same {
-				transitions += len(l)
-			}
-			for _, l := range fresh {
-				transitions += len(l)
-			}
-			s.r.CapHit(fmt.Sprintf("deadline at depth %d (own key K%d, prefix %d)", d, s.cfg.OwnKey, len(s.prefix)))
-			return len(distinct), len(seen), transitions, d, false
-		}
-		// phase 3 (sequential, deterministic order): merge
-		for i, p := range reps {
-			newFrom[p.keyR] = fresh[i]
-			transitions += len(fresh[i])
-			for _, c := range fresh[i] {
-				handle(p.keyR, c)
-			}
-		}
-		for i, p := range frontier {
-			transitions += len(same[i])
-			for _, c := range same[i] {
-				handle(p.keyR, c)
-				if len(p.pending) == 0 {
-					continue // an empty open block: the two batchings coincide
+			frontier := level[start:end]
+			// phase 1: every event appended to the open block of every frontier node
+			same := make([][]child, len(frontier))
+			ok := s.parallel(len(frontier), func(w *worker, i int) { same[i] = w.expandSame(frontier[i], nEvents) })
+			// phase 2: every event as a new block, once per distinct state after the open block
+			var reps []*node
+			repOf := map[string]bool{}
+			for _, p := range frontier {
+				if len(p.pending) > 0 && newFrom[p.keyR] == nil && !repOf[p.keyR] {
+					repOf[p.keyR] = true
+					reps = append(reps, p)
 				}
-				// the two batchings of the same sequence must end in the same state
-				cn := newFrom[p.keyR][c.event]
-				s.pairs++
-				if c.n.keyR != cn.n.keyR {
-					l1, l2 := w0.lines(c.res), w0.lines(cn.res)
-					dd := reg.Diff(l1, l2)
-					last := fx.Events[c.event]
-					two := append(append([]string{}, p.names(fx)...), "["+last.Name+"]")
-					s.outcomes["VIOLATION batching-dependence"]++
-					s.r.Violate(fmt.Sprintf("batching-dependence last=%s diff=%s", kindName[last.Kind], cats(dd)),
-						fmt.Sprintf("the same event sequence ends in different states when %s is put in the same block or in a new block: %s", last.Name, strings.Join(dd, " ; ")),
-						"c11", map[string]interface{}{"own_key": fmt.Sprintf("K%d", s.cfg.OwnKey), "one_block": c.n.names(fx), "two_blocks": two},
-						map[string]interface{}{"one_block": l1, "two_blocks": l2}, nil)
+			}
+			fresh := make([][]child, len(reps))
+			if ok {
+				ok = s.parallel(len(reps), func(w *worker, i int) { fresh[i] = w.expandNew(reps[i], nEvents) })
+			}
+			if !ok {
+				for _, l := range same {
+					transitions += len(l)
+				}
+				for _, l := range fresh {
+					transitions += len(l)
+				}
+				s.r.CapHit(fmt.Sprintf("deadline at depth %d (own key K%d, prefix %d)", d, s.cfg.OwnKey, len(s.prefix)))
+				return len(distinct), len(seen), transitions, d, false
+			}
+			// phase 3 (sequential, deterministic order): merge
+			for i, p := range reps {
+				transitions += len(fresh[i])
+				var l []newRes
+				for _, c := range fresh[i] {
+					handle(p.keyR, c)
+					l = append(l, newRes{keyR: c.n.keyR, lines: w0.lines(c.res)})
+				}
+				newFrom[p.keyR] = l
+			}
+			for i, p := range frontier {
+				transitions += len(same[i])
+				for _, c := range same[i] {
+					handle(p.keyR, c)
+					if len(p.pending) == 0 {
+						continue // an empty open block: the two batchings coincide
+					}
+					// the two batchings of the same sequence must end in the same state
+					cn := newFrom[p.keyR][c.event]
+					s.pairs++
+					if c.n.keyR != cn.keyR {
+						l1, l2 := w0.lines(c.res), cn.lines
+						dd := reg.Diff(l1, l2)
+						last := fx.Events[c.event]
+						two := append(append([]string{}, p.names(fx)...), "["+last.Name+"]")
+						s.outcomes["VIOLATION batching-dependence"]++
+						s.r.Violate(fmt.Sprintf("batching-dependence last=%s diff=%s", kindName[last.Kind], cats(dd)),
+							fmt.Sprintf("the same event sequence ends in different states when %s is put in the same block or in a new block: %s", last.Name, strings.Join(dd, " ; ")),
+							"c11", map[string]interface{}{"own_key": fmt.Sprintf("K%d", s.cfg.OwnKey), "one_block": c.n.names(fx), "two_blocks": two},
+							map[string]interface{}{"one_block": l1, "two_blocks": l2}, nil)
+					}
 				}
 			}
 		}
